@@ -657,8 +657,17 @@ fn run_case(cc: &CCase, stats: &mut Stats, genr: Option<(&mut Prng, usize)>, tot
             let size = match nc { 1 => SECTOR_SIZE, 2 => SECTOR_SIZE / 2, _ => SECTOR_SIZE / 4 };
             let mut cl = vec![];
             for j in 0..nc {
-                let tmin = r.range(MINIMUM_VERIFIED_ALLOCATION_TERM, life.min(MINIMUM_VERIFIED_ALLOCATION_TERM + 80_000));
+                // term_min inside the sector's lifetime, or on / one off the boundary lifetime = term_min
+                // (the claim is made at a non-zero epoch, so lifetime and expiry differ)
+                let tmin_kind = r.below(100);
+                let tmin = match tmin_kind {
+                    0..=69 => r.range(MINIMUM_VERIFIED_ALLOCATION_TERM, life.min(MINIMUM_VERIFIED_ALLOCATION_TERM + 80_000)),
+                    70..=79 => life,
+                    80..=89 => life - 1,
+                    _ => life + 1, // the sector expires before term_start + term_min: onboarding must fail
+                };
                 let tmax = match r.below(100) {
+                    _ if tmin_kind >= 90 => life + 1 + r.range(0, 300_000),
                     0..=39 => life + r.range(0, 120_000),
                     40..=69 => life + r.range(120_000, 1_500_000),
                     70..=84 => MAXIMUM_VERIFIED_ALLOCATION_TERM,
